@@ -125,9 +125,9 @@ func main() {
 		p := props[os.Args[2]]
 		tier := os.Args[3]
 		if tier == "quick" {
-			schedJobCap = 400000
+			schedJobCap, schedJobTime = 400000, 4*time.Minute
 		} else {
-			schedJobCap = 20000000
+			schedJobCap, schedJobTime = 20000000, 30*time.Minute
 		}
 		defer engine.CleanScratch()
 		engine.WorkerLoop(func(job string) *engine.JobResult { return p.Exec(tier, job) })
